@@ -137,6 +137,7 @@ type Diff struct {
 	Impl      string `json:"impl"`
 	Model     string `json:"model"`
 	Class     string `json:"class,omitempty"` // known-finding class, if the generator can tell
+	Level     string `json:"level,omitempty"` // "property" (default) or "correspondence"
 	Note      string `json:"note,omitempty"`
 }
 
